@@ -95,6 +95,25 @@ func fixed() []fw.Case {
 			Round(ownh.Cleanup()).Round(ownh.New(d)).Round(ownh.Destroy(c, false, true, false), ownh.Destroy(d, false, true, false)).Round(ownh.Cleanup())
 		add("fixed-reuse-claim", b)
 	}
+	// reuseUnlockedTasks: TWO creations overlap the keepTasks destroy and want the task it leaves behind: both may earmark it
+	// (acquireTasks' reuse loop holds no lock); the first one's deployment fails for another role (its task dies at launch: three
+	// attempts, a second apart), the second one is satisfied by reuse alone or — variant — launches a further task. Whoever
+	// claimed the task times out at DEPLOY; the failing acquisition must leave the parent of the earmarked task alone (it
+	// un-parents only what it launched: go/ast fact failedAcquireUnparentsOnlyDeployed). Every outcome is judged by the monitor.
+	for v := 0; v < 2; v++ {
+		b := &ownh.B{Reuse: true}
+		a := b.Env("ok", []int{1}, ownh.OKT(1, 1))
+		c := b.Env("ok", []int{3}, ownh.OKT(1, 1), ownh.T(5, 2, "die", "ok", "ok", "ok"))
+		var d int
+		if v == 0 {
+			d = b.Env("ok", []int{4}, ownh.OKT(1, 1))
+		} else {
+			d = b.Env("ok", []int{4}, ownh.OKT(1, 1), ownh.OKT(6, 3))
+		}
+		b.Round(ownh.New(a)).Round(ownh.Ctl(a, "START")).Round(ownh.New(c), ownh.New(d), ownh.Destroy(a, false, true, true)).
+			Round(ownh.Cleanup()).Round(ownh.Destroy(d, false, true, false)).Round(ownh.Cleanup())
+		add("fixed-reuse-claim-overlap", b)
+	}
 	return cs
 }
 
@@ -202,7 +221,7 @@ func init() {
 		RunImpl:    ownh.RunRetry,
 		Nontrivial: nontrivial,
 		Rule: "fixed scenarios (refused creation next to live environments, 2–3 concurrent creations needing one detector, cleanup/kill requests naming owned tasks, " +
-			"with reuseUnlockedTasks a creation concurrent with a keepTasks destroy of an environment holding the task classes it wants) " +
+			"with reuseUnlockedTasks a creation concurrent with a keepTasks destroy of an environment holding the task classes it wants, two such creations at once — one failing at deployment for another role —) " +
 			"then random scenarios: 2–4 environments with 1–3 tasks each on 4 shared hosts / 3 detectors, 3–7 rounds of 1–3 concurrently issued requests " +
 			"(create, START/STOP/RESET/CONFIGURE, destroy with random force/allowInRunningState/keepTasks, CleanupTasks for all or for one environment's tasks), " +
 			"12% of roles with a scripted launch/configure/transition failure, 8% of environments with DESTROY hooks, 10% of scenarios with reuseUnlockedTasks; " +
